@@ -21,6 +21,7 @@ import (
 )
 
 type input struct {
+	SharedAddr bool          `json:"shared_address,omitempty"` // the handler reads from a listener-manager handle and another handle on the address stays open (a reload that keeps the address)
 	Timeout    time.Duration `json:"nat_timeout"`
 	Ops        []udpx.Op     `json:"ops"`
 	SlowRemove time.Duration `json:"slow_remove,omitempty"` // every removal report takes this long: the teardown window is open for that time
@@ -349,7 +350,7 @@ func scenario(in input) *engine.Scenario {
 	tr := &udpx.Trace{}
 	sc := &engine.Scenario{Name: "nat-life", Opt: vrt.Options{Horizon: udpx.Horizon}}
 	sc.Body = func() {
-		udpx.Run(udpx.Config{Keys: udpx.DefaultKeys(), NatTimeout: in.Timeout, SlowRemove: in.SlowRemove}, in.Ops, tr)
+		udpx.Run(udpx.Config{Keys: udpx.DefaultKeys(), NatTimeout: in.Timeout, SlowRemove: in.SlowRemove, ViaManager: in.SharedAddr, KeepOther: in.SharedAddr}, in.Ops, tr)
 	}
 	sc.Check = func(x *vrt.Exec) (string, bool, []*engine.Finding) {
 		fs := hk.Generic(x, hk.Opts{Leaks: true})
@@ -370,6 +371,9 @@ func scenario(in input) *engine.Scenario {
 // allowed: closed, or kept). What must not happen: the datagram has already extended the
 // deadline (it was accepted on this association) and the reply still moves the deadline back
 // to "now" - the deadline never moves earlier.
+// RaceScenarios is used by C19 (the outcome must equal some sequential order of the calls).
+func RaceScenarios() []*engine.Scenario { return raceScenarios() }
+
 func raceScenarios() []*engine.Scenario {
 	var out []*engine.Scenario
 	inputs := [][]udpx.Op{
@@ -451,6 +455,21 @@ func init() {
 				ctx.RunCase("nat-life", "Q", scenario(in), in, nil)
 			}
 		}
+		// shutdown of a handler whose address stays open for somebody else (the handle is closed, the
+		// socket is not): the handler ends and its associations expire at once all the same
+		for _, ops := range [][]udpx.Op{
+			{{K: "S", C: 0, Key: 0, T: 1, N: 30}, {K: "S", C: 1, Key: 1, T: 3, N: 12}, {K: "Q"}},
+			{{K: "S", C: 0, Key: 0, T: 0, N: 30}, {K: "A", D: time.Second}, {K: "Q"}, {K: "A", D: 20 * time.Second}},
+			{{K: "Q"}},
+		} {
+			idx++
+			if ctx.Mine(idx) {
+				in := input{Timeout: 300 * time.Second, Ops: ops, SharedAddr: true}
+				sc := scenario(in)
+				sc.Name = "nat-shared-shutdown"
+				ctx.RunCase("nat-shared-shutdown", "E", sc, in, nil)
+			}
+		}
 		// teardown windows: the removal report takes 2 ms, and client datagrams, replies and a
 		// second client arrive inside, at the edges of and after the window
 		for i, in := range windowInputs() {
@@ -473,8 +492,8 @@ func init() {
 			return []*engine.Finding{{Sig: "BROKEN:bad-input", Msg: err.Error()}}
 		}
 		rp.Choices = nil
-		if rp.Unit == "nat-window" {
-			return engine.ReplayCase("nat-window", scenario(in), rp)
+		if rp.Unit == "nat-window" || rp.Unit == "nat-shared-shutdown" {
+			return engine.ReplayCase(rp.Unit, scenario(in), rp)
 		}
 		return engine.ReplayCase("nat-life", scenario(in), rp)
 	}
